@@ -822,6 +822,26 @@ class SetAlg:
         if h == "iter-elem" and c[1][0] == "tuplelit" and len(c[1][1]) == 2 and c[2][0] == "call" and c[2][1] == "zip" and len(c[2][2]) == 2:
             # a pair drawn from zip(X, Y): its components are elements of X and of Y
             return f_and(("atom", self.canon_opaque(c)), self.member(c[1][1][0], c[2][2][0]), self.member(c[1][1][1], c[2][2][1]))
+        if h in ("any", "all") and c[1][0] == "comp" and isinstance(c[1][3], tuple):
+            # a quantifier does not care how its domain is held: list(X) / tuple(X) / iter(X) range over X, and a pair drawn from
+            # product(A, B) is an element of A together with an element of B
+            gens2, ch_ = [], False
+            for pat_, it_, cds_ in c[1][3]:
+                it2 = it_
+                while is_term(it2) and it2[0] == "call" and it2[1] in ("list", "tuple", "iter", "sorted", "reversed") and len(it2[2]) == 1 and not (
+                        it2[3] and it2[1] != "sorted"):
+                    it2 = it2[2][0]
+                if is_term(it2) and it2[0] == "call" and isinstance(it2[1], str) and it2[1].split(".")[-1] == "product" and not it2[3] \
+                        and pat_[0] == "tuplelit" and len(pat_[1]) == len(it2[2]) >= 2 and all(q_[0] == "var" for q_ in pat_[1]):
+                    for k_, (q_, a_) in enumerate(zip(pat_[1], it2[2])):
+                        gens2.append((q_, a_, tuple(cds_) if k_ == len(it2[2]) - 1 else ()))
+                    ch_ = True
+                    continue
+                if it2 is not it_:
+                    ch_ = True
+                gens2.append((pat_, it2, cds_))
+            if ch_:
+                return self.cond((h, ("comp", c[1][1], c[1][2], tuple(gens2))))
         if h in ("any", "all") and c[1][0] == "comp" and c[1][2][0] == ("or" if h == "any" else "and"):
             # ∃x (A ∨ B) = ∃x A ∨ ∃x B ;  ∀x (A ∧ B) = ∀x A ∧ ∀x B
             parts = [self.cond((h, ("comp", c[1][1], b, c[1][3]))) for b in c[1][2][1:]]
@@ -1113,7 +1133,18 @@ class SetAlg:
             if t2 != t:
                 return self.canon_opaque(t2)
         if h == "accum" and len(t) > 5 and t[5] == ("const", True):
-            return (h,) + tuple(self.canon(x) for x in t[1:])  # may stop early: kept as the loop it is
+            # may stop early: kept as the loop it is -- over the elements of its source (list(X), tuple(X), iter(X) walk X in X's order)
+            gens_ = []
+            for g_ in t[4]:
+                it_ = g_[1]
+                while is_term(it_) and it_[0] == "call" and it_[1] in ("list", "tuple", "iter") and len(it_[2]) == 1 and not it_[3]:
+                    it_ = it_[2][0]
+                gens_.append((g_[0], it_, g_[2]))
+            t = t[:4] + (tuple(gens_),) + t[5:]
+            return (h,) + tuple(self.canon(x) for x in t[1:])
+        if h == "call" and t[1] in ("list", "tuple") and len(t[2]) == 1 and not t[3] and is_term(t[2][0]) and t[2][0][0] == "accum" and t[2][0][1] == "concat" \
+                and len(t[2][0]) > 5 and t[2][0][5] == ("const", True):
+            return self.canon_opaque(t[2][0])  # list(<a list built by a loop>): the same items
         if (h == "accum" and t[1] in ("union", "concat")) or h == "bigunion":
             return self.canon_set(t)
         if h == "call" and isinstance(t[1], str) and (t[1] in CHAIN_NAMES or t[1].endswith("chain.from_iterable")) and len(t[2]) == 1:
